@@ -1,10 +1,10 @@
-"""C12 — configuration of the check (deductive tier under construction)."""
+"""C12 — Point lookup returns the tile and pixel that actually contain the point."""
 PROPERTY = "C12"
-LEVEL = "exploration"
-CONTRACT_MODULES = ["contracts.specfuns"]
-FUNCTIONS = []
+LEVEL = "other"
+CONTRACT_MODULES = ["contracts.specfuns", "contracts.toastgeom"]
+FUNCTIONS = ["toasty.toast.toast_tile_for_point"]
 LEMMAS = []
 SLOW = ()
-TRUSTED_BASE = []
-ASSUMPTIONS = []
-EXPLANATION = "bounded run-time tier only so far"
+TRUSTED_BASE = ["pyvc VC generator; z3/cvc5", "machine floats treated as reals; np.radians(x) = x*pi/180"]
+ASSUMPTIONS = ["containment below level 1 (half-space scores in floating point), nesting of the descent and the pixel fit are bounded-tier only"]
+EXPLANATION = "level-1 quadrant selection proved against the documented layout in both coordinate systems for every real longitude"
